@@ -12,12 +12,15 @@ import (
 	"github.com/luthersystems/elps/lisp"
 	"github.com/luthersystems/elps/lisp/lisplib"
 	"github.com/luthersystems/elps/parser"
+
+	"verifharness/tree"
 )
 
 // Probe is one event of the effect trace.
 type Probe struct {
 	Tag     string
-	Vals    string // rendered values
+	Vals    string    // rendered values
+	Trees   []*tree.T // structural snapshots taken at probe time
 	Steps   int64
 	Height  int
 	Nesting int
@@ -27,18 +30,18 @@ func (p Probe) String() string { return p.Tag + ":" + p.Vals }
 
 // Opts configures a runtime.
 type Opts struct {
-	MaxSteps  int64
-	Ctx       context.Context // root context (WithContext)
-	Debugger  bool            // attach a dormant debugger (disables TRO)
-	Profiler  bool            // attach a no-op profiler
-	MaxPhys   int             // 0 = default
-	MaxNest   int
-	MaxTail   int
-	MaxMacro  int
-	MaxAlloc  int
-	NoStdlib  bool
-	Library   lisp.SourceLibrary
-	NoProbes  bool
+	MaxSteps int64
+	Ctx      context.Context // root context (WithContext)
+	Debugger bool            // attach a dormant debugger (disables TRO)
+	Profiler bool            // attach a no-op profiler
+	MaxPhys  int             // 0 = default
+	MaxNest  int
+	MaxTail  int
+	MaxMacro int
+	MaxAlloc int
+	NoStdlib bool
+	Library  lisp.SourceLibrary
+	NoProbes bool
 }
 
 // R is a monitored runtime.
@@ -60,13 +63,15 @@ type DepthSample struct {
 
 type dormantDebugger struct{}
 
-func (dormantDebugger) IsEnabled() bool                                       { return false }
-func (dormantDebugger) OnEval(*lisp.LEnv, *lisp.LVal) bool                    { return false }
-func (dormantDebugger) WaitIfPaused(*lisp.LEnv, *lisp.LVal) lisp.DebugAction  { return lisp.DebugContinue }
-func (dormantDebugger) OnFunEntry(*lisp.LEnv, *lisp.LVal, *lisp.LEnv)         {}
-func (dormantDebugger) OnFunReturn(*lisp.LEnv, *lisp.LVal, *lisp.LVal)        {}
-func (dormantDebugger) AfterFunCall(*lisp.LEnv) bool                          { return false }
-func (dormantDebugger) OnError(*lisp.LEnv, *lisp.LVal) bool                   { return false }
+func (dormantDebugger) IsEnabled() bool                    { return false }
+func (dormantDebugger) OnEval(*lisp.LEnv, *lisp.LVal) bool { return false }
+func (dormantDebugger) WaitIfPaused(*lisp.LEnv, *lisp.LVal) lisp.DebugAction {
+	return lisp.DebugContinue
+}
+func (dormantDebugger) OnFunEntry(*lisp.LEnv, *lisp.LVal, *lisp.LEnv)  {}
+func (dormantDebugger) OnFunReturn(*lisp.LEnv, *lisp.LVal, *lisp.LVal) {}
+func (dormantDebugger) AfterFunCall(*lisp.LEnv) bool                   { return false }
+func (dormantDebugger) OnError(*lisp.LEnv, *lisp.LVal) bool            { return false }
 
 type nopProfiler struct{ n *int }
 
@@ -134,8 +139,8 @@ type bdef struct {
 	fn      lisp.LBuiltin
 }
 
-func (b bdef) Name() string                              { return b.name }
-func (b bdef) Formals() *lisp.LVal                       { return b.formals }
+func (b bdef) Name() string                               { return b.name }
+func (b bdef) Formals() *lisp.LVal                        { return b.formals }
 func (b bdef) Eval(e *lisp.LEnv, a *lisp.LVal) *lisp.LVal { return b.fn(e, a) }
 
 // PanicValue is what (verif:panic) panics with.
@@ -160,7 +165,11 @@ func (r *R) addProbes(env *lisp.LEnv) {
 			if tag.Type != lisp.LSymbol && tag.Type != lisp.LString {
 				t = tag.String()
 			}
-			r.Trace = append(r.Trace, Probe{Tag: t, Vals: sb.String(), Steps: e.Runtime.Steps(),
+			var trees []*tree.T
+			for _, v := range a.Cells[1:] {
+				trees = append(trees, tree.FromLVal(v))
+			}
+			r.Trace = append(r.Trace, Probe{Tag: t, Vals: sb.String(), Trees: trees, Steps: e.Runtime.Steps(),
 				Height: len(e.Runtime.Stack.Frames), Nesting: e.Runtime.EvalNesting()})
 			if len(a.Cells) > 1 {
 				return a.Cells[len(a.Cells)-1]
@@ -203,14 +212,14 @@ func (r *R) addProbes(env *lisp.LEnv) {
 
 // Transcript is the observable outcome of one top-level evaluation.
 type Transcript struct {
-	Value   string // rendering of the value (or of the error)
-	IsErr   bool
-	Cond    string
-	Msg     string
-	Stderr  string
-	Steps   int64
-	Trace   []Probe
-	Panic   bool // lisp.IsInternalPanic
+	Value  string // rendering of the value (or of the error)
+	IsErr  bool
+	Cond   string
+	Msg    string
+	Stderr string
+	Steps  int64
+	Trace  []Probe
+	Panic  bool // lisp.IsInternalPanic
 }
 
 func (t Transcript) TraceString() string {
